@@ -660,6 +660,14 @@ func c12FixupAttrs(c *Ctx, idx int, r *Rng) {
 	if r.Chance(35) {
 		changeAt = 1 + r.Intn(ncommits-1)
 	}
+	// … or the repository ADOPTED LFS midway: from some commit on the files are committed through the
+	// real clean filter, so the rewrite finds those trees already in order and leaves them as they are —
+	// below commits whose trees it has to change
+	adoptAt := -1
+	if changeAt < 0 && r.Chance(40) {
+		adoptAt = 1 + r.Intn(ncommits-1)
+		c.R.Count("import.fixup-attrs.adopted-midway")
+	}
 	var effPer []map[string]string
 	for k := 0; k < ncommits; k++ {
 		must := Pick(r, files)
@@ -684,7 +692,11 @@ func c12FixupAttrs(c *Ctx, idx int, r *Rng) {
 			snap[f] = b
 		}
 		contents = append(contents, snap)
-		w.git("add", "-A")
+		if adoptAt >= 0 && k >= adoptAt {
+			w.git("-c", "filter.lfs.clean=git-lfs clean -- %f", "-c", "filter.lfs.smudge=git-lfs smudge --skip -- %f", "-c", "filter.lfs.required=true", "add", "--renormalize", "-A")
+		} else {
+			w.git("add", "-A")
+		}
 		w.git("commit", "-qm", fmt.Sprintf("c%d", k), "--allow-empty")
 		effPer = append(effPer, checkAttr(w.dir, files))
 	}
@@ -695,7 +707,7 @@ func c12FixupAttrs(c *Ctx, idx int, r *Rng) {
 	}
 	_, oldOrder := c12ReadHistory(w)
 	out, code := w.runLfs("migrate", "import", "--fixup", "--everything", "--yes")
-	enc := fmt.Sprintf("C12 fixup-attrs seed=%d idx=%d root=%q nested=%q attrs-change-at=%d", c.Seed, idx, root, nested, changeAt)
+	enc := fmt.Sprintf("C12 fixup-attrs seed=%d idx=%d root=%q nested=%q attrs-change-at=%d adopted-at=%d", c.Seed, idx, root, nested, changeAt, adoptAt)
 	c.R.Eval(enc, true)
 	c.R.Count("import.fixup-attrs")
 	if code != 0 {
